@@ -9,6 +9,7 @@
    and C09-bad-escape.patch; the pinned behaviour is `*_pinned` and is refuted below.
    `nm` is Python's Unicode name table (unicodedata, used by \N{name}): the theorems hold for EVERY table. *)
 From Coq Require Import ZArith Bool String Ascii List.
+From JMCV Require Proofs.LitMacro.
 From JMCV Require Import Model.Lit Model.LitFmtRead Proofs.LitBase Proofs.LitJson Proofs.LitNbt Proofs.LitPy Proofs.LitSpell
   Proofs.LitFmt Proofs.LitFmtRead Proofs.LitFmtScalar Proofs.LitFmtStrict Proofs.LitCtx.
 Import ListNotations.
@@ -268,3 +269,19 @@ Example C09_formatted_nonvacuous :
   jt_read (lit "["""",{""text"":""  "",""color"":""red""},{""selector"":""@s"",""color"":""red""},{""text"":""  "",""color"":""red""}]")
   = Some (lit "    ").
 Proof. vm_compute. split; reflexivity. Qed.
+
+(* ---- round 5: the header's macro table.  A string literal (STRING token; likewise a bracket token that is re-tokenised
+   later) goes through Tokenizer.append_token, which consults header.macros for KEYWORD tokens only: for EVERY macro table
+   - also one that defines the literal's whole text as a macro name - the token is pushed with its text unchanged, and the
+   literal-to-output function composed with that step is the one of the theorems above. *)
+Theorem C09_string_token_ignores_macros :
+  forall mt mt' ty st, ty <> JMCV.Model.Layout.KEYWORD ->
+    JMCV.Model.Layout.append_token mt ty st = JMCV.Model.Layout.append_token mt' ty st.
+Proof. exact JMCV.Proofs.LitMacro.non_keyword_token_ignores_macros. Qed.
+Print Assumptions C09_string_token_ignores_macros.
+
+Theorem C09_literal_macro_independent :
+  forall mt st nm pr q raw k cs,
+    JMCV.Proofs.LitMacro.compile_lit_hdr mt st nm pr q raw k cs = compile_lit nm pr q raw k cs.
+Proof. exact JMCV.Proofs.LitMacro.compile_lit_macro_independent. Qed.
+Print Assumptions C09_literal_macro_independent.
